@@ -5,13 +5,13 @@ go 1.24
 require (
 	github.com/juev/hledger-lsp v0.0.0
 	github.com/segmentio/encoding v0.3.4
+	github.com/shopspring/decimal v1.4.0
 	go.lsp.dev/protocol v0.12.0
 )
 
 require (
 	github.com/bmatcuk/doublestar/v4 v4.9.2 // indirect
 	github.com/segmentio/asm v1.1.3 // indirect
-	github.com/shopspring/decimal v1.4.0 // indirect
 	go.lsp.dev/jsonrpc2 v0.10.0 // indirect
 	go.lsp.dev/pkg v0.0.0-20210717090340-384b27a52fb2 // indirect
 	go.lsp.dev/uri v0.3.0 // indirect
